@@ -270,6 +270,8 @@ def check_detector(case, rec=None):
     tth = rng.uniform(0.01, 60, n)
     eta = rng.uniform(-180, 180, n)
     om = rng.uniform(-720, 720, n)
+    if case["index"] % 4 == case["mseed"] % 4:
+        om = np.rint(om).astype(np.int64)          # whole-degree scan positions as an integer array (np.arange)
     t = (p["t_x"], p["t_y"], p["t_z"])
     kw = {k: p[k] for k in ("y_center", "y_size", "tilt_y", "z_center", "z_size", "tilt_z", "tilt_x", "distance",
                             "o11", "o12", "o21", "o22")}
@@ -312,11 +314,21 @@ def check_detector(case, rec=None):
     # the compiled route must invert the projection as well (omega as observed = omega_eff / omegasign)
     ok, ct = guard(transform.Ctransform, dict(p))
     if ok:
+        # a second detector / calibration alive in the same process (other wavelength, wedge, chi, rotation sense)
+        # must not change what the first object computes
+        guard(transform.Ctransform, dict(p, wavelength=p["wavelength"] * 1.6, wedge=p["wedge"] + 3.0, chi=p["chi"] - 2.0,
+                                         omegasign=-p["omegasign"], distance=p["distance"] * 0.5))
         ok, geo = guard(lambda: ct.xyz2geometry(ct.sf2xyz(sc, fc), om / p["omegasign"], t[0], t[1], t[2]))
         if ok:
             geo = np.asarray(geo)
             e1 = np.abs(geo[:, 0] - tth).max()
             e2 = np.abs(O.eta_diff(geo[:, 1], eta) * np.sin(np.radians(tth))).max()
+            e3 = np.abs(geo[:, 2] - 2 * np.sin(np.radians(tth) / 2) / p["wavelength"]).max()
+            e4 = np.abs(np.sqrt((geo[:, 3:6] ** 2).sum(axis=1)) - geo[:, 2]).max()
+            if not (e3 <= 1e-9 / p["wavelength"] and e4 <= 1e-9 / p["wavelength"]):
+                fails.append(fail("detector_roundtrip_c", "Ctransform.xyz2geometry: ds differs from 2 sin(theta)/lambda of "
+                                  "this object's wavelength by %.3g, |g| from ds by %.3g (a second Ctransform with other "
+                                  "parameters exists)" % (e3, e4), fn="Ctransform.bragg"))
             if not (e1 <= 1e-8 and e2 <= 1e-8):
                 fails.append(fail("detector_roundtrip_c", "Ctransform.xyz2geometry(sf2xyz(compute_xyz_from_tth_eta(tth,"
                                   "eta))) differs: dtth %.3g deta %.3g; pars %s" %
